@@ -122,6 +122,9 @@ def main(chk):
     for c in cases[:(120 if quick else len(cases))]:
         calls.append({'id': 'c:%s' % c['id'], 'api': 'run', 'case': c, 'check_sem': True})
     units = k2.pmap('harness.apicalls:observe', calls)
+    chk.add('skipped_pysdmx_input', len([u for u in units if 'skip' in u]))
+    calls = [c for c, u in zip(calls, units) if 'skip' not in u]
+    units = [u for u in units if 'skip' not in u]
     for u in units:
         if 'machinery' in u:
             raise RuntimeError(u['machinery'])
